@@ -148,7 +148,7 @@ func c06Cfg(rng *mrand.Rand, i int) cliCfg {
 func TestVerif_C06(t *testing.T) {
 	r := vk.Open()
 	defer r.Close()
-	n := r.Pick(420, 20000)
+	n := r.Pick(420, 60000)
 	const per = 30 // handshakes per bubble/state
 	for blk := 0; blk*per < n; blk++ {
 		id := fmt.Sprintf("handshakes-%d", blk)
@@ -266,7 +266,7 @@ func TestVerif_C06(t *testing.T) {
 
 	// forced overlap: connection A held between authorisation and session attachment while B
 	// arrives and completes (both must still agree with the server on their own keys)
-	for i := 0; i < r.Pick(16, 120); i++ {
+	for i := 0; i < r.Pick(16, 400); i++ {
 		transport := []string{"cdn", "direct"}[i%2]
 		id := fmt.Sprintf("auth-window-%s-%d", transport, i)
 		if !r.Mine(id) {
@@ -308,7 +308,7 @@ func TestVerif_C06(t *testing.T) {
 
 	// all connections of one new session at once (what client.MakeSession does with NumConn > 1), a
 	// database user and a user manager that is slow enough for them to overlap
-	sb := r.Pick(24, 400)
+	sb := r.Pick(24, 2000)
 	for i := 0; i < sb; i++ {
 		transport := []string{"direct", "cdn"}[i%2]
 		id := fmt.Sprintf("same-session-burst-%s-%d", transport, i)
@@ -351,7 +351,7 @@ func TestVerif_C06(t *testing.T) {
 	}
 
 	// whole system: MakeSession against Serve
-	ws := r.Pick(16, 160)
+	ws := r.Pick(16, 600)
 	for i := 0; i < ws; i++ {
 		id := fmt.Sprintf("system-%d", i)
 		if !r.Mine(id) {
